@@ -84,6 +84,39 @@ def c01(pid, tier, seed, t0):
                                    "start position is not required"])
 
 
+WALK_FEATURES = ("castle_kingside", "castle_queenside", "castle_white", "castle_black", "en_passant_capture",
+                 "promotion_Q", "promotion_R", "promotion_B", "promotion_N", "promotion_N_capture",
+                 "rook_captured_on_home_square", "null_move", "undo_null", "undo_move", "nesting_ge_20",
+                 "null_move_with_ep_target_pending")
+WALK_ASSUME = ["oracle = refchess advanced by the same moves (rules), pre-move snapshots (reversibility)",
+               "histories are sampled; nesting depth <= 40, as deep as a search of the default depth limits goes"]
+
+
+def c02(pid, tier, seed, t0):
+    stages = [H("walk-checked", "c02", "checked", args=["--scale", "3"])]
+    return run_stages(pid, tier, seed, t0, "exploration", stages,
+                      required=WALK_FEATURES + ("double_push_with_neighbour", "double_push_without_neighbour",
+                                                "double_push_neighbour_cannot_capture"),
+                      assumptions=WALK_ASSUME + ["en-passant target field: any single recording convention (always / "
+                                                 "enemy pawn adjacent / capture legal) is accepted if it explains "
+                                                 "every observation of the run"])
+
+
+def c03(pid, tier, seed, t0):
+    stages = [H("walk-checked", "c03", "checked", args=["--scale", "3"])]
+    return run_stages(pid, tier, seed, t0, "exploration", stages, required=WALK_FEATURES,
+                      assumptions=WALK_ASSUME + ["'different keys on everything explored' is claimed for the positions "
+                                                 "in the run-wide map only (capped, see x_positions_in_collision_map)"])
+
+
+def c15(pid, tier, seed, t0):
+    stages = [H("walk-checked", "c15", "checked", args=["--scale", "3"])]
+    return run_stages(pid, tier, seed, t0, "exploration", stages, required=WALK_FEATURES, assumptions=WALK_ASSUME)
+
+
 PROPS = {
     "C01": c01,
+    "C02": c02,
+    "C03": c03,
+    "C15": c15,
 }
